@@ -173,6 +173,24 @@ def run_shard(args):
             continue
         fid = classify(files, style)
         out["violations"].append({"kind": detail["kind"], "detail": {**{k: v for k, v in detail.items() if k != "new"}, "style": style, "seed": args.seed, "shard": args.shard, "case": c, "new": detail.get("new", "")[:3000]}, "witness": {"files": files, "flags": ["create", "fix"], "style": style}, "finding": fid})
+    # regression corpus (shapes of the defects found on the pinned tree), once per run
+    if args.shard == 0:
+        from .. import corpus
+
+        csites = corpus.sites()
+        src, order = program.build(csites, style="rec", tests=4)
+        files = {"test_a.py": src}
+        status, detail, res = run_one(files, "rec")
+        C["corpus_sites"] = len(csites)
+        out["evaluations"] += len(csites)
+        for s in csites:
+            out["signatures"].add(f"corpus/{s['sig']}")
+        if status == "crashed":
+            out["violations"].append({"kind": "corpus-run-crashed", "detail": detail, "witness": {"files": files, "flags": ["create", "fix"], "style": "rec"}, "finding": None})
+        elif status == "violation":
+            out["violations"].append({"kind": "corpus:" + detail["kind"], "detail": {k: v for k, v in detail.items() if k != "new"} | {"new": detail.get("new", "")[:3000]}, "witness": {"files": files, "flags": ["create", "fix"], "style": "rec"}, "finding": None})
+        elif status == "ok":
+            C["reexec_events"] += detail["events"]
     out["signatures"] = sorted(out["signatures"])
     return out
 
